@@ -3,6 +3,7 @@ package c08
 import (
 	"context"
 	"fmt"
+	"os"
 	"strings"
 	"time"
 
@@ -201,6 +202,20 @@ func opAddMessages(bid imap.InternalMailboxID, pairs []idPair, listDesc string, 
 		return tx.AddMessagesToMailbox(ctx, bid, toPairs(pairs))
 	}, func(m *model) (expect, func([]db.UIDWithFlags) error) {
 		exp, entries := m.addMessages(bid, pairs)
+		if exp != expOK && os.Getenv("C08_DEBUG") != "" {
+			_, mb := m.mboxes[bid]
+			why := ""
+			for _, p := range pairs {
+				if _, ok := m.msgs[p.id]; !ok {
+					why += " unknown:" + shortID(p.id)
+				} else if b := m.mboxes[bid]; b != nil {
+					if _, ok := b.byMsg[p.id]; ok {
+						why += " member:" + shortID(p.id)
+					}
+				}
+			}
+			fmt.Println("DEBUG addMessages fails:", desc, "mailbox exists:", mb, "msgs:", len(m.msgs), why)
+		}
 		if exp == expErr && lenient {
 			exp = expLenient // (never reached without error: the model has not changed)
 		}
